@@ -5,7 +5,7 @@ SPEC = {
         'descriptor wallets on SQLite attached to an in-process regtest node; legacy-wallet migration is excluded by the statement',
         'clean-restart clause: the canonical dump is taken from the in-memory wallet through public members after TopUpKeyPool() (the wallet tops up when it is loaded) and '
         'with the node mempool unchanged across the restart; memory-only coin locks are documented not to survive',
-        'c43_wallet_persist never locks an already locked coin; re-locking (allowed by lockunspent to make a lock persistent) is explored by the separate target c43_lockcoins',
+        'coin locks follow the lockunspent contract: a non-persistent lock request for an already locked coin and an unlock of a coin that is not locked are refused by the RPC and not generated; re-locking with persistence is generated (main histories and the dense target c43_lockcoins)',
         'atomic groups checked on crash images are the database transactions the statement lists, recognised on record level: descriptor setup (all rows of newly generated '
         'descriptors + active-descriptor pointers; at wallet creation with a generated seed and after encryption), encryption (master key + every private-key row of the '
         'existing descriptors), keypool top-up (per descriptor: cache rows + range), RemoveTxs, address-book removal; importdescriptors-equivalents are not one transaction in this code base',
@@ -15,15 +15,15 @@ SPEC = {
     ],
     'stages': [
         gen('vh_c43', 'c43_wallet_persist', 256, 4000, min_cases_quick=80, max_seconds_quick=120,
-            floors={'restart-with-transactions': 0.4, 'op:send': 0.15, 'op:removetxs': 0.05, 'op:deladdr': 0.03, 'op:lockcoin': 0.15, 'op:import': 0.15, 'encrypted': 0.1},
+            floors={'restart-with-transactions': 0.4, 'op:send': 0.15, 'op:removetxs': 0.01, 'op:deladdr': 0.03, 'op:lockcoin': 0.15, 'op:import': 0.15, 'encrypted': 0.1},
             rule='wallet histories ending with a restart; canonical dump before == after; non-trivial = restart with >=1 wallet transaction, >=5 mutating ops of >=4 kinds; distinct = op-kind sequence'),
         gen('vh_c43', 'c43_lockcoins', 320, 4000, min_cases_quick=100, max_seconds_quick=60,
             floors={'restart': 0.4, 'relock': 0.2},
             rule='lock/unlock/re-lock/restart sequences over 3 outpoints against the model of the lockunspent documentation; non-trivial = restart with a persistent lock + >=1 unlock'),
-        custom('bin/crashsim/c43_worker.py', 160, 3200, name='c43_crash_images', needs=[('san', 'vh_c43')],
-               min_cases_quick=32, floors={'cut-inside-atomic-group': 0.2, 'image-loaded': 0.5},
+        custom('bin/crashsim/c43_worker.py', 96, 3200, name='c43_crash_images', needs=[('san', 'vh_c43')],
+               min_cases_quick=20, floors={'cut-inside-atomic-group': 0.1, 'image-loaded': 0.5},
                hard_timeout_quick=1500, max_seconds_quick=170, max_seconds_thorough=5400,
-               rule='2 recorded wallet workloads per worker (6 in thorough) incl. wallet creation; two thirds of the cuts inside operations the statement lists as one database '
+               rule='1 recorded wallet workload per worker (6 in thorough) incl. wallet creation; two thirds of the cuts inside operations the statement lists as one database '
                     'transaction; kill + power-loss images; oracle: database opens, every atomic group of the interrupted operation is entirely as in the snapshot before or after, '
                     'LoadExisting succeeds; non-trivial = an atomic group with >=2 changed rows was judged; distinct = (workload, cut index, mode)'),
     ],
